@@ -219,7 +219,10 @@ def run(res, replay=None):
     gen_dir = vlib.scratch_dir()
     try:
         _fresh_example(res, gen_dir)
+        _wire_stage(res, pid, gen_dir)
+        wire_obl = list(res.corr_obligations)
         _run_with_model_traces(res, pid, mode, quick, args, gen_dir)
+        res.corr_obligations = list(res.corr_obligations) + wire_obl
         if pid == "C13":
             _race_gennode(res)
     finally:
@@ -227,6 +230,79 @@ def run(res, replay=None):
         shutil.rmtree(gen_dir, ignore_errors=True)
     if not quick and pid == "C13":
         _race_stress(res)
+
+
+# functions of run.go that contain lock sections: a difference there is reported by C13 as well
+_C13_FUNCS = ("RunMessageReceiver", "RunMessageTransmitter.transmit", "RunMessageTransmitter.setCyclicTransmission", "gen.Node")
+
+
+def _wire_stage(res, pid, gen_dir):
+    """ACTION-SEQUENCE TIE (DESIGN.md 9.6 "Action-sequence tie for the runner"): the CURRENT text of pkg/canrunner/run.go and
+    of the example node generated by the tree's generator in this run is read by the strict extractor harness/runwire
+    (go/parser; every statement becomes a node class + canonical text + successors; unknown statement shapes are errors
+    with file:line) into the action programs of Runner/Program.v. The driver compares every function node by node with the
+    reference program (extracted first_diff) and evaluates the extracted checker prog_lock_ok / gen_prog_passive. By
+    C13_prog_* / C14_prog_* the lock discipline and the transmitter's select / ticker / transmit structure then hold of
+    the source text for every path, not only for the schedules executed below."""
+    import time as _t
+    t0 = _t.time()
+    wexe, log = vlib.build_harness("runwire", gen_dir)
+    if wexe is None:
+        res.violation("runner action-sequence extractor no longer builds (broken tie)", {"build_log": log[-3000:]}, no_input=True)
+        return
+    drv = vlib.build_driver("runner")
+    gen_file = vlib.EXTRA_OVERLAYS.get("runner", {}).get("testdata/gen/go/example/example.dbc.go") or \
+        os.path.join(vlib.REPO, "testdata", "gen", "go", "example", "example.dbc.go")
+    run_go = os.path.join(vlib.REPO, "pkg", "canrunner", "run.go")
+    cmd = "%s %s %s | %s wire" % (wexe, run_go, gen_file, drv)
+    import subprocess
+    p = subprocess.run(["bash", "-c", "timeout 120 " + cmd], stdout=subprocess.PIPE, stderr=subprocess.PIPE, text=True)
+    out, err = p.stdout, p.stderr
+    stat = None
+    reported = 0
+    how = ("harness/runwire <repo>/pkg/canrunner/run.go <generated example.dbc.go> | runner driver `wire` (extracted first_diff / "
+           "prog_lock_ok of Runner/Program.v); the forced schedules and whole-node scenarios of this check supply a concrete "
+           "failing schedule where the behaviour at the interfaces changed")
+
+    def report(text, replay):
+        nonlocal reported
+        reported += 1
+        if reported <= 3:
+            res.violation(text, dict(replay, how=how), no_input=True)
+
+    for line in out.splitlines():
+        if line.startswith("RWSTAT "):
+            stat = json.loads(line[7:])
+        elif line.startswith("RWERR "):
+            report("runner source is outside the statement shapes the action-sequence extractor accepts: %s" % line[6:][:400],
+                   {"extractor_error": line})
+        elif line.startswith(("RWDIFF ", "RWMISSING ", "RWUNKNOWN ", "RWLOCK ")):
+            head, _, detail = line.partition(" || ")
+            toks = head.split()
+            kind, fn, inst = toks[0], toks[1], toks[2]
+            where = " ".join(toks[3:])
+            is_gen = fn.startswith("gen.")
+            if kind == "RWLOCK":
+                mine = pid == "C13" or is_gen
+                text = ("lock discipline of the source text fails (extracted prog_lock_ok = false): function %s%s, first offending node %s: %s"
+                        % (fn, "" if inst == "-" else " of " + inst, where, detail[:300]))
+            else:
+                mine = pid == "C14" or fn in _C13_FUNCS
+                text = ("action sequence of %s%s is no longer the reference program the runner model was proved for (%s): %s"
+                        % (fn, "" if inst == "-" else " of " + inst, where, detail[:400]))
+            if mine:
+                report(text, {"function": fn, "instance": inst, "node": where, "detail": detail, "line": line})
+    if stat is None:
+        res.violation("runner action-sequence extractor or model driver failed (rc=%s)" % p.returncode,
+                      {"stderr": err[-2000:], "stdout_tail": out[-800:]}, no_input=True)
+        return
+    res.cov["action_sequence_tie"] = dict(stat, wall_s=round(_t.time() - t0, 1), rule=(
+        "one function = RunMessageReceiver / RunMessageTransmitter / its 4 closures / Run / its 3 goroutine bodies / every method of "
+        "every generated xxx_<NODE>_{Tx,Rx}_<Msg> type / the embedded fields of every xxx_<NODE>; one node = one statement or "
+        "condition (class, canonical text, successor indices) compared with the reference program by decidable equality"))
+    res.corr_obligations = [
+        "action programs extracted from the current run.go and the freshly generated node code = the reference programs of "
+        "Runner/Program.v (first_diff = None for every function), prog_lock_ok / gen_prog_passive = true"]
 
 
 def _fresh_example(res, gen_dir):
